@@ -65,11 +65,14 @@ Runner ==
     \/ Is("R", "wpool.run.enter") /\ ORunEnter(r)
     \/ Is("R", "done") /\ ORunDone(r)
 
+Canceller ==
+  \E x \in Cancellers : Ev.id = x /\ Is("X", "done") /\ OCancelDone(x)
+
 (* the next recorded execution starts from the initial state again *)
 Reset == Ev.k = "reset" /\ ResetAll
 
 TNext ==
-  \/ l <= Len(Trace) /\ (Sender \/ Flusher \/ Worker \/ Stopper \/ Runner \/ Reset) /\ l' = l + 1
+  \/ l <= Len(Trace) /\ (Sender \/ Flusher \/ Worker \/ Stopper \/ Runner \/ Canceller \/ Reset) /\ l' = l + 1
   \/ Effects /\ UNCHANGED l
 
 TSpec == TInit /\ [][TNext]_tvars
